@@ -70,7 +70,10 @@ Definition set_endian (e : endian) (v : dview) : dview :=
   {| v_endian := e; v_version := v_version v; v_checksum := v_checksum v; v_time := v_time v; v_flags := v_flags v;
      v_sysinfo := v_sysinfo v; v_threads := v_threads v; v_modules := v_modules v; v_memory := v_memory v;
      v_memory64 := v_memory64 v; v_exception := v_exception v; v_tnames := v_tnames v; v_unloaded := v_unloaded v;
-     v_meminfo := v_meminfo v; v_misc := v_misc v |}.
+     v_meminfo := v_meminfo v; v_misc := v_misc v;
+     v_breakpad := v_breakpad v; v_assertion := v_assertion v; v_thread_info := v_thread_info v;
+     v_lx_cpuinfo := v_lx_cpuinfo v; v_lx_status := v_lx_status v; v_lx_lsb := v_lx_lsb v;
+     v_lx_environ := v_lx_environ v; v_lx_maps := v_lx_maps v; v_lx_limits := v_lx_limits v |}.
 
 Theorem endian_independent : forall m, wf_model LE m = true -> wf_model BE m = true ->
   option_map (set_endian LE) (decode_dump (encode_dump LE m)) =
@@ -93,7 +96,10 @@ Definition set_extra (m : model) (x : list (Z * (Z * Z))) : model :=
   {| m_version := m_version m; m_checksum := m_checksum m; m_time := m_time m; m_flags := m_flags m;
      m_extra_dir := x; m_pad_lists := m_pad_lists m; m_sysinfo := m_sysinfo m; m_threads := m_threads m;
      m_modules := m_modules m; m_memory := m_memory m; m_memory64 := m_memory64 m; m_exception := m_exception m;
-     m_tnames := m_tnames m; m_unloaded := m_unloaded m; m_meminfo := m_meminfo m; m_misc := m_misc m |}.
+     m_tnames := m_tnames m; m_unloaded := m_unloaded m; m_meminfo := m_meminfo m; m_misc := m_misc m;
+     m_breakpad := m_breakpad m; m_assertion := m_assertion m; m_thread_info := m_thread_info m;
+     m_lx_cpuinfo := m_lx_cpuinfo m; m_lx_status := m_lx_status m; m_lx_lsb := m_lx_lsb m;
+     m_lx_environ := m_lx_environ m; m_lx_maps := m_lx_maps m; m_lx_limits := m_lx_limits m |}.
 
 (* whatever entries precede the real ones in the directory (including entries of the same types
    pointing anywhere), the reader serves the later, real ones *)
@@ -119,82 +125,81 @@ Qed.
 (* ------------------------------------------------------------------ statements used by Properties.v *)
 From RM Require Import C02.Documented.
 Lemma layouts_documented :
-  L_MINIDUMP_HEADER = D_MINIDUMP_HEADER /\
   N_MINIDUMP_HEADER = DN_MINIDUMP_HEADER /\
-  L_MINIDUMP_LOCATION_DESCRIPTOR = D_MINIDUMP_LOCATION_DESCRIPTOR /\
   N_MINIDUMP_LOCATION_DESCRIPTOR = DN_MINIDUMP_LOCATION_DESCRIPTOR /\
-  L_MINIDUMP_MEMORY_DESCRIPTOR = D_MINIDUMP_MEMORY_DESCRIPTOR /\
   N_MINIDUMP_MEMORY_DESCRIPTOR = DN_MINIDUMP_MEMORY_DESCRIPTOR /\
-  L_MINIDUMP_MEMORY_DESCRIPTOR64 = D_MINIDUMP_MEMORY_DESCRIPTOR64 /\
   N_MINIDUMP_MEMORY_DESCRIPTOR64 = DN_MINIDUMP_MEMORY_DESCRIPTOR64 /\
-  L_MINIDUMP_DIRECTORY = D_MINIDUMP_DIRECTORY /\
   N_MINIDUMP_DIRECTORY = DN_MINIDUMP_DIRECTORY /\
-  L_MINIDUMP_THREAD = D_MINIDUMP_THREAD /\
-  N_MINIDUMP_THREAD = DN_MINIDUMP_THREAD /\
-  L_MINIDUMP_THREAD_NAME = D_MINIDUMP_THREAD_NAME /\
   N_MINIDUMP_THREAD_NAME = DN_MINIDUMP_THREAD_NAME /\
-  L_VS_FIXEDFILEINFO = D_VS_FIXEDFILEINFO /\
   N_VS_FIXEDFILEINFO = DN_VS_FIXEDFILEINFO /\
-  L_MINIDUMP_MODULE = D_MINIDUMP_MODULE /\
   N_MINIDUMP_MODULE = DN_MINIDUMP_MODULE /\
-  L_MINIDUMP_UNLOADED_MODULE = D_MINIDUMP_UNLOADED_MODULE /\
   N_MINIDUMP_UNLOADED_MODULE = DN_MINIDUMP_UNLOADED_MODULE /\
-  L_GUID = D_GUID /\
-  N_GUID = DN_GUID /\
-  L_MINIDUMP_EXCEPTION = D_MINIDUMP_EXCEPTION /\
-  N_MINIDUMP_EXCEPTION = DN_MINIDUMP_EXCEPTION /\
-  L_MINIDUMP_EXCEPTION_STREAM = D_MINIDUMP_EXCEPTION_STREAM /\
-  N_MINIDUMP_EXCEPTION_STREAM = DN_MINIDUMP_EXCEPTION_STREAM /\
-  L_CPU_INFORMATION = D_CPU_INFORMATION /\
-  N_CPU_INFORMATION = DN_CPU_INFORMATION /\
-  L_X86CpuInfo = D_X86CpuInfo /\
-  N_X86CpuInfo = DN_X86CpuInfo /\
-  L_ARMCpuInfo = D_ARMCpuInfo /\
-  N_ARMCpuInfo = DN_ARMCpuInfo /\
-  L_OtherCpuInfo = D_OtherCpuInfo /\
-  N_OtherCpuInfo = DN_OtherCpuInfo /\
-  L_MINIDUMP_SYSTEM_INFO = D_MINIDUMP_SYSTEM_INFO /\
-  N_MINIDUMP_SYSTEM_INFO = DN_MINIDUMP_SYSTEM_INFO /\
-  L_MINIDUMP_MEMORY_INFO_LIST = D_MINIDUMP_MEMORY_INFO_LIST /\
-  N_MINIDUMP_MEMORY_INFO_LIST = DN_MINIDUMP_MEMORY_INFO_LIST /\
-  L_MINIDUMP_MEMORY_INFO = D_MINIDUMP_MEMORY_INFO /\
-  N_MINIDUMP_MEMORY_INFO = DN_MINIDUMP_MEMORY_INFO /\
-  L_SYSTEMTIME = D_SYSTEMTIME /\
-  N_SYSTEMTIME = DN_SYSTEMTIME /\
-  L_TIME_ZONE_INFORMATION = D_TIME_ZONE_INFORMATION /\
-  N_TIME_ZONE_INFORMATION = DN_TIME_ZONE_INFORMATION /\
-  L_XSTATE_FEATURE = D_XSTATE_FEATURE /\
-  N_XSTATE_FEATURE = DN_XSTATE_FEATURE /\
-  L_XSTATE_CONFIG_FEATURE_MSC_INFO = D_XSTATE_CONFIG_FEATURE_MSC_INFO /\
-  N_XSTATE_CONFIG_FEATURE_MSC_INFO = DN_XSTATE_CONFIG_FEATURE_MSC_INFO /\
-  L_FLOATING_SAVE_AREA_X86 = D_FLOATING_SAVE_AREA_X86 /\
-  N_FLOATING_SAVE_AREA_X86 = DN_FLOATING_SAVE_AREA_X86 /\
-  L_CONTEXT_X86 = D_CONTEXT_X86 /\
-  N_CONTEXT_X86 = DN_CONTEXT_X86 /\
-  L_CONTEXT_AMD64 = D_CONTEXT_AMD64 /\
-  N_CONTEXT_AMD64 = DN_CONTEXT_AMD64 /\
-  L_FLOATING_SAVE_AREA_ARM = D_FLOATING_SAVE_AREA_ARM /\
-  N_FLOATING_SAVE_AREA_ARM = DN_FLOATING_SAVE_AREA_ARM /\
-  L_CONTEXT_ARM = D_CONTEXT_ARM /\
-  N_CONTEXT_ARM = DN_CONTEXT_ARM /\
-  L_CONTEXT_ARM64 = D_CONTEXT_ARM64 /\
-  N_CONTEXT_ARM64 = DN_CONTEXT_ARM64 /\
-  L_CV_INFO_PDB20 = D_CV_INFO_PDB20 /\
   N_CV_INFO_PDB20 = DN_CV_INFO_PDB20 /\
-  L_CV_INFO_PDB70 = D_CV_INFO_PDB70 /\
+  N_GUID = DN_GUID /\
   N_CV_INFO_PDB70 = DN_CV_INFO_PDB70 /\
-  L_CV_INFO_ELF = D_CV_INFO_ELF /\
   N_CV_INFO_ELF = DN_CV_INFO_ELF /\
-  L_MINIDUMP_MISC_INFO = D_MINIDUMP_MISC_INFO /\
+  N_IMAGE_DEBUG_MISC = DN_IMAGE_DEBUG_MISC /\
+  N_MINIDUMP_THREAD = DN_MINIDUMP_THREAD /\
+  N_MINIDUMP_EXCEPTION = DN_MINIDUMP_EXCEPTION /\
+  N_MINIDUMP_EXCEPTION_STREAM = DN_MINIDUMP_EXCEPTION_STREAM /\
+  N_XMM_SAVE_AREA32 = DN_XMM_SAVE_AREA32 /\
+  N_SSE_REGISTERS = DN_SSE_REGISTERS /\
+  N_CONTEXT_AMD64 = DN_CONTEXT_AMD64 /\
+  N_FLOATING_SAVE_AREA_ARM = DN_FLOATING_SAVE_AREA_ARM /\
+  N_CONTEXT_ARM = DN_CONTEXT_ARM /\
+  N_CONTEXT_ARM64_OLD = DN_CONTEXT_ARM64_OLD /\
+  N_CONTEXT_ARM64 = DN_CONTEXT_ARM64 /\
+  N_FLOATING_SAVE_AREA_MIPS = DN_FLOATING_SAVE_AREA_MIPS /\
+  N_CONTEXT_MIPS = DN_CONTEXT_MIPS /\
+  N_FLOATING_SAVE_AREA_PPC = DN_FLOATING_SAVE_AREA_PPC /\
+  N_VECTOR_SAVE_AREA_PPC = DN_VECTOR_SAVE_AREA_PPC /\
+  N_CONTEXT_PPC = DN_CONTEXT_PPC /\
+  N_CONTEXT_PPC64 = DN_CONTEXT_PPC64 /\
+  N_FLOATING_SAVE_AREA_SPARC = DN_FLOATING_SAVE_AREA_SPARC /\
+  N_CONTEXT_SPARC = DN_CONTEXT_SPARC /\
+  N_FLOATING_SAVE_AREA_X86 = DN_FLOATING_SAVE_AREA_X86 /\
+  N_CONTEXT_X86 = DN_CONTEXT_X86 /\
+  N_CPU_INFORMATION = DN_CPU_INFORMATION /\
+  N_X86CpuInfo = DN_X86CpuInfo /\
+  N_ARMCpuInfo = DN_ARMCpuInfo /\
+  N_OtherCpuInfo = DN_OtherCpuInfo /\
+  N_MINIDUMP_SYSTEM_INFO = DN_MINIDUMP_SYSTEM_INFO /\
+  N_SYSTEMTIME = DN_SYSTEMTIME /\
+  N_TIME_ZONE_INFORMATION = DN_TIME_ZONE_INFORMATION /\
+  N_XSTATE_FEATURE = DN_XSTATE_FEATURE /\
+  N_XSTATE_CONFIG_FEATURE_MSC_INFO = DN_XSTATE_CONFIG_FEATURE_MSC_INFO /\
+  N_MINIDUMP_MEMORY_INFO_LIST = DN_MINIDUMP_MEMORY_INFO_LIST /\
+  N_MINIDUMP_MEMORY_INFO = DN_MINIDUMP_MEMORY_INFO /\
+  N_MINIDUMP_BREAKPAD_INFO = DN_MINIDUMP_BREAKPAD_INFO /\
+  N_MINIDUMP_ASSERTION_INFO = DN_MINIDUMP_ASSERTION_INFO /\
+  N_LINK_MAP_32 = DN_LINK_MAP_32 /\
+  N_DSO_DEBUG_32 = DN_DSO_DEBUG_32 /\
+  N_LINK_MAP_64 = DN_LINK_MAP_64 /\
+  N_DSO_DEBUG_64 = DN_DSO_DEBUG_64 /\
+  N_MINIDUMP_SIMPLE_STRING_DICTIONARY_ENTRY = DN_MINIDUMP_SIMPLE_STRING_DICTIONARY_ENTRY /\
+  N_MINIDUMP_SIMPLE_STRING_DICTIONARY = DN_MINIDUMP_SIMPLE_STRING_DICTIONARY /\
+  N_MINIDUMP_RVA_LIST = DN_MINIDUMP_RVA_LIST /\
+  N_MINIDUMP_ANNOTATION = DN_MINIDUMP_ANNOTATION /\
+  N_MINIDUMP_MODULE_CRASHPAD_INFO = DN_MINIDUMP_MODULE_CRASHPAD_INFO /\
+  N_MINIDUMP_MODULE_CRASHPAD_INFO_LINK = DN_MINIDUMP_MODULE_CRASHPAD_INFO_LINK /\
+  N_MINIDUMP_MODULE_CRASHPAD_INFO_LIST = DN_MINIDUMP_MODULE_CRASHPAD_INFO_LIST /\
+  N_MINIDUMP_CRASHPAD_INFO = DN_MINIDUMP_CRASHPAD_INFO /\
+  N_MINIDUMP_MAC_CRASH_INFO = DN_MINIDUMP_MAC_CRASH_INFO /\
+  N_MINIDUMP_MAC_BOOTARGS = DN_MINIDUMP_MAC_BOOTARGS /\
+  N_MINIDUMP_HANDLE_OBJECT_INFORMATION = DN_MINIDUMP_HANDLE_OBJECT_INFORMATION /\
+  N_MINIDUMP_HANDLE_DESCRIPTOR = DN_MINIDUMP_HANDLE_DESCRIPTOR /\
+  N_MINIDUMP_HANDLE_DESCRIPTOR_2 = DN_MINIDUMP_HANDLE_DESCRIPTOR_2 /\
+  N_MINIDUMP_HANDLE_DATA_STREAM = DN_MINIDUMP_HANDLE_DATA_STREAM /\
+  N_MINIDUMP_THREAD_INFO = DN_MINIDUMP_THREAD_INFO /\
   N_MINIDUMP_MISC_INFO = DN_MINIDUMP_MISC_INFO /\
-  L_MINIDUMP_MISC_INFO_2 = D_MINIDUMP_MISC_INFO_2 /\
   N_MINIDUMP_MISC_INFO_2 = DN_MINIDUMP_MISC_INFO_2 /\
-  L_MINIDUMP_MISC_INFO_3 = D_MINIDUMP_MISC_INFO_3 /\
   N_MINIDUMP_MISC_INFO_3 = DN_MINIDUMP_MISC_INFO_3 /\
-  L_MINIDUMP_MISC_INFO_4 = D_MINIDUMP_MISC_INFO_4 /\
   N_MINIDUMP_MISC_INFO_4 = DN_MINIDUMP_MISC_INFO_4 /\
-  L_MINIDUMP_MISC_INFO_5 = D_MINIDUMP_MISC_INFO_5 /\
   N_MINIDUMP_MISC_INFO_5 = DN_MINIDUMP_MISC_INFO_5 /\
+  N_MINIDUMP_MAC_CRASH_INFO_RECORD = DN_MINIDUMP_MAC_CRASH_INFO_RECORD /\
+  N_MINIDUMP_MAC_CRASH_INFO_RECORD_4 = DN_MINIDUMP_MAC_CRASH_INFO_RECORD_4 /\
+  N_MINIDUMP_MAC_CRASH_INFO_RECORD_5 = DN_MINIDUMP_MAC_CRASH_INFO_RECORD_5 /\
+  ALL_LAYOUTS = D_ALL_LAYOUTS /\
   MINIDUMP_SIGNATURE = DOC_MINIDUMP_SIGNATURE /\
   MINIDUMP_VERSION = DOC_MINIDUMP_VERSION /\
   VS_FFI_SIGNATURE = DOC_VS_FFI_SIGNATURE /\
@@ -210,10 +215,32 @@ Lemma layouts_documented :
   ST_MiscInfoStream = DOC_ST_MiscInfoStream /\
   ST_MemoryInfoListStream = DOC_ST_MemoryInfoListStream /\
   ST_ThreadNamesStream = DOC_ST_ThreadNamesStream /\
+  ST_HandleDataStream = DOC_ST_HandleDataStream /\
+  ST_ThreadInfoListStream = DOC_ST_ThreadInfoListStream /\
+  ST_BreakpadInfoStream = DOC_ST_BreakpadInfoStream /\
+  ST_AssertionInfoStream = DOC_ST_AssertionInfoStream /\
+  ST_LinuxCpuInfo = DOC_ST_LinuxCpuInfo /\
+  ST_LinuxProcStatus = DOC_ST_LinuxProcStatus /\
+  ST_LinuxLsbRelease = DOC_ST_LinuxLsbRelease /\
+  ST_LinuxCmdLine = DOC_ST_LinuxCmdLine /\
+  ST_LinuxEnviron = DOC_ST_LinuxEnviron /\
+  ST_LinuxAuxv = DOC_ST_LinuxAuxv /\
+  ST_LinuxMaps = DOC_ST_LinuxMaps /\
+  ST_LinuxDsoDebug = DOC_ST_LinuxDsoDebug /\
+  ST_CrashpadInfoStream = DOC_ST_CrashpadInfoStream /\
+  ST_MozMacosCrashInfoStream = DOC_ST_MozMacosCrashInfoStream /\
+  ST_MozMacosBootargsStream = DOC_ST_MozMacosBootargsStream /\
+  ST_MozLinuxLimits = DOC_ST_MozLinuxLimits /\
+  ST_MozSoftErrors = DOC_ST_MozSoftErrors /\
   CF_CONTEXT_X86 = DOC_CF_CONTEXT_X86 /\
   CF_CONTEXT_AMD64 = DOC_CF_CONTEXT_AMD64 /\
   CF_CONTEXT_ARM = DOC_CF_CONTEXT_ARM /\
   CF_CONTEXT_ARM64 = DOC_CF_CONTEXT_ARM64 /\
+  CF_CONTEXT_ARM64_OLD = DOC_CF_CONTEXT_ARM64_OLD /\
+  CF_CONTEXT_MIPS = DOC_CF_CONTEXT_MIPS /\
+  CF_CONTEXT_PPC = DOC_CF_CONTEXT_PPC /\
+  CF_CONTEXT_PPC64 = DOC_CF_CONTEXT_PPC64 /\
+  CF_CONTEXT_SPARC = DOC_CF_CONTEXT_SPARC /\
   CF_ALL_BITS = DOC_CF_ALL_BITS /\
   CONTEXT_CPU_MASK = DOC_CONTEXT_CPU_MASK /\
   PROCESSOR_ARCHITECTURE_INTEL = DOC_PROCESSOR_ARCHITECTURE_INTEL /\
@@ -221,6 +248,12 @@ Lemma layouts_documented :
   PROCESSOR_ARCHITECTURE_AMD64 = DOC_PROCESSOR_ARCHITECTURE_AMD64 /\
   PROCESSOR_ARCHITECTURE_IA32_ON_WIN64 = DOC_PROCESSOR_ARCHITECTURE_IA32_ON_WIN64 /\
   PROCESSOR_ARCHITECTURE_ARM64 = DOC_PROCESSOR_ARCHITECTURE_ARM64 /\
+  PROCESSOR_ARCHITECTURE_MIPS = DOC_PROCESSOR_ARCHITECTURE_MIPS /\
+  PROCESSOR_ARCHITECTURE_PPC = DOC_PROCESSOR_ARCHITECTURE_PPC /\
+  PROCESSOR_ARCHITECTURE_SPARC = DOC_PROCESSOR_ARCHITECTURE_SPARC /\
+  PROCESSOR_ARCHITECTURE_PPC64 = DOC_PROCESSOR_ARCHITECTURE_PPC64 /\
+  PROCESSOR_ARCHITECTURE_ARM64_OLD = DOC_PROCESSOR_ARCHITECTURE_ARM64_OLD /\
+  PROCESSOR_ARCHITECTURE_MIPS64 = DOC_PROCESSOR_ARCHITECTURE_MIPS64 /\
   CV_SIG_Pdb20 = DOC_CV_SIG_Pdb20 /\
   CV_SIG_Pdb70 = DOC_CV_SIG_Pdb70 /\
   CV_SIG_Elf = DOC_CV_SIG_Elf /\
@@ -253,10 +286,16 @@ Lemma stream_roundtrips : forall e,
   sec_ok (enc_sysinfo e) (dec_sysinfo e) wf_sysinfo /\
   sec_ok (enc_misc e) (dec_misc e) wf_misc /\
   sec_ok (enc_exlist unloaded_codec e UNLOADED_HDR 4) (dec_exlist unloaded_codec e false) (forallb wf_unloaded) /\
-  sec_ok (enc_exlist meminfo_codec e MEMINFO_HDR 8) (dec_exlist meminfo_codec e true) (forallb wf_meminfo).
+  sec_ok (enc_exlist meminfo_codec e MEMINFO_HDR 8) (dec_exlist meminfo_codec e true) (forallb wf_meminfo) /\
+  (forall L, sec_ok (enc_flat L e) (dec_flat L e) (wf_flat L)) /\
+  (forall L, 1 <= lsize L < 4294967296 -> icodec_ok (flat_codec L) e (wf_flat L)) /\
+  sec_ok (enc_raw e) (dec_raw e) (fun _ => true).
 Proof.
   intro e. split; [apply mem64_roundtrip|]. split; [apply exception_roundtrip|]. split; [apply sysinfo_roundtrip|].
-  split; [apply misc_roundtrip|]. split.
+  split; [apply misc_roundtrip|]. split; [|split; [|split; [|split]]].
   - apply (exlist_roundtrip unloaded_codec e wf_unloaded (unloaded_ok e) false UNLOADED_HDR 4). right. repeat split.
   - apply (exlist_roundtrip meminfo_codec e wf_meminfo (meminfo_ok e) true MEMINFO_HDR 8). left. repeat split.
+  - intro L. apply flat_roundtrip.
+  - intros L H. apply flat_codec_ok. exact H.
+  - apply raw_roundtrip.
 Qed.
